@@ -10,15 +10,22 @@
 (*   - os_in: the OS's own realpath + lstat of the file holding that tag says "regular file inside the root".      *)
 (* Which inside file is served for which name is NOT demanded (the check reports differences from the Impl         *)
 (* prediction as model drift).  An exception escaping the lookup counts as a refusal.                              *)
+(* Histories: every lookup of a history is judged against the tree AT THE TIME OF THAT LOOKUP: the event says       *)
+(* whether the intermediate directory <root>/dir was in place (dir = "in") or moved out and replaced by a link to    *)
+(* the outside directory (dir = "out"; AssetOps!DirOut).  Pipes, sockets and devices are not regular files: their    *)
+(* tags (what the driver's feeder writes into a pipe) are in no Inside set.                                         *)
 EXTENDS TraceBase, AssetOps
 
 vars == <<l>>
 Init == l = 1
 \* embedded mode serves its compiled-in assets (tags 21 static, 22 template) besides EXTERNAL_DIR files
-Inside(mode) == InsideTags(mode) \cup (IF mode = "embedded_ext" THEN {21} ELSE {})
+InsideIn == [m \in Modes |-> InsideTagsOf(FS0, m) \cup (IF m = "embedded_ext" THEN {21} ELSE {})]
+InsideOut == [m \in Modes |-> InsideTagsOf(DirOut(FS0, m), m) \cup (IF m = "embedded_ext" THEN {21} ELSE {})]
+Inside(e) == IF e.dir = "out" THEN InsideOut[e.mode] ELSE InsideIn[e.mode]
 Allowed(e) == /\ e.res \in {"found", "notfound", "rejected", "exception"}
-              /\ e.res = "found" => /\ e.tag \in Inside(e.mode)
-                                    /\ (e.gz # 0 => e.gz \in Inside(e.mode))
+              /\ e.dir \in {"in", "out"}
+              /\ e.res = "found" => /\ e.tag \in Inside(e)
+                                    /\ (e.gz # 0 => e.gz \in Inside(e))
                                     /\ e.os_in
 Judge(ok) == IF ok THEN TRUE ELSE PrintT(<<"BAD", l>>)
 EvLookup == IsEv("Lookup") /\ Judge(Ev.mode \in Modes /\ Allowed(Ev))
